@@ -46,7 +46,9 @@ def uniqueness_checks(model: Model, attr: str) -> List[str]:
                 ):
                     key, container = e.left, e.comparators[0]
                     _, kexprs = expr_closure(cfg, at, key)
-                    if attr not in _attr_names(kexprs):
+                    # the key must identify by this attribute alone: a set keyed on (glyph_name, codepoints) pairs only rejects
+                    # inputs that coincide in BOTH and establishes uniqueness of neither
+                    if _attr_names(kexprs) & {"glyph_name", "codepoints"} != {attr}:
                         continue
                     adds = [c for c in calls_in(fi) if callee_tail(c) in ("add", "append") and isinstance(c.func, ast.Attribute)
                             and norm(c.func.value) == norm(container) and c.args and norm(c.args[0]) == norm(key)]
@@ -226,3 +228,38 @@ def r17e(model: Model, rr: RuleResult):
                     if not ok:
                         rr.remarks.append(f"{fi.fq}: name '{nm}' in {short(st, 70)} is never bound (NameError instead of the intended message; exit is still non-zero)")
     rr.ok(f"{n} raise statements scanned for unbound names")
+
+
+@RULES.rule("C17", "R17f", "masters must have EQUAL source-name sets (symmetric comparison)", floor=1)
+def r17f(model: Model, rr: RuleResult):
+    fi = model.func("config", "load")
+    cfg = cfg_of(fi)
+    A, B = "source_names", "master_source_names"
+    verdict = None
+    where = None
+    for st in walk_body(fi):
+        if not isinstance(st, ast.Raise):
+            continue
+        at = cfg.node_for(st)
+        for t, lab in cfg.controlling_tests(at):
+            test = getattr(cfg.nodes[t].ast, "test", None)
+            if test is None:
+                continue
+            names, exprs = expr_closure(cfg, t, test)
+            if not ({A, B} <= names):
+                continue
+            txts = [norm(e).replace(" ", "") for e in exprs]
+            sym = any(x in (f"{A}!={B}", f"{B}!={A}", f"{A}=={B}", f"{B}=={A}") for x in txts) or any(f"{A}^{B}" in x or f"{B}^{A}" in x or "symmetric_difference" in x for x in txts) \
+                or (any(f"{A}-{B}" in x for x in txts) and any(f"{B}-{A}" in x for x in txts))
+            one = any(f"{A}-{B}" in x or f"{B}-{A}" in x or "issubset" in x or "issuperset" in x or f"{A}<={B}" in x or f"{A}>={B}" in x for x in txts)
+            if sym:
+                verdict, where = "sym", st
+            elif one and verdict is None:
+                verdict, where = "one", st
+    if verdict == "sym":
+        rr.ok("a master whose source-name set differs from the first master's in either direction is rejected")
+    elif verdict == "one":
+        rr.bad(fi, where, "masters' source sets are compared in one direction only: a later master with an extra source is accepted and the variable font "
+               "silently lacks that glyph", construct="config.load: one-sided comparison of source_names and master_source_names")
+    else:
+        rr.bad(fi, fi.node, "no check compares the source-name sets of the masters", construct="config.load: masters source sets unchecked")
